@@ -19,9 +19,9 @@ vcheck.build_harness()
 done = set()
 for pid, plan in sorted(PLANS.items()):
     for st in plan.get("quick", []):
-        if st.get("type") == "tlc-replay" and (st["module"], st["cfg"]) not in done:
+        if st.get("type") in ("tlc-replay", "tlc-only") and (st["module"], st["cfg"]) not in done:
             done.add((st["module"], st["cfg"]))
-            m = vcheck.run_tlc(st["module"], st["cfg"])
+            m = vcheck.run_tlc(st["module"], st["cfg"], cfg_path=vcheck.materialize_cfg(st))
             print("setup: TLC %s/%s: %s distinct states%s" % (st["module"], st["cfg"], m["distinct"], " (cached)" if m["cached"] else ""))
 PY
 echo "setup done"
